@@ -23,16 +23,21 @@ ORIGIN_RE = re.compile(r"x\*[A-Za-z0-9_\.\[\]\*]*")
 
 
 class Pol(syn_models.SynPolicy):
-    def __init__(self, NF, M):
+    def __init__(self, NF, M, only=None, NV=None, MV=None):
         super().__init__()
+        self.MV = M if MV is None else MV
+        self.NV = NF if NV is None else NV
         self.NF = NF
         self.M = M
+        self.only = only     # restrict the body kind (syn::Data variant names) - used to afford two attributed fields
 
     def variants(self, I, st, lz, t):
         if t.adt and t.adt["name"].endswith("error::kind::ErrorKind"):
             return list(range(10))
         if lz.name.endswith(".meta.path.leading_colon"):
             return [0]
+        if self.only and lz.name == "x*.data":
+            return [i for i, v in enumerate(t.adt["variants"]) if v["name"] in self.only]
         # syn's own invariants: named fields have an identifier, tuple fields have none
         if ".named[" in lz.name and lz.name.endswith("].ident"):
             return [1]
@@ -43,9 +48,13 @@ class Pol(syn_models.SynPolicy):
     def len_bounds(self, I, st, name, t):
         if name == "x*.attrs":
             return (0, 0)
+        if re.search(r"\.variants\[\d+\]\.attrs$", name):
+            return (0, self.MV)
         if name.endswith(".attrs"):
             return (0, self.M)
-        if name.endswith(".variants") or name.endswith(".named") or name.endswith(".unnamed"):
+        if name.endswith(".variants"):
+            return (0, self.NV)
+        if name.endswith(".named") or name.endswith(".unnamed"):
             return (0, self.NF)
         if name.endswith(".segments"):
             return (1, 1)
@@ -74,9 +83,12 @@ class Exp:
         self.ck = ck
         self.l = l
         self.open = False
+        self.ignored = []     # attribute vectors of fields / variants that must be converted but were never inspected on this leaf
 
     def attr_value(self, at, rn):
         """('ok', {'a': ...}, forwarded) | ('err', [E], None) for the non-magic members fed by the attribute vector `at`"""
+        if self.l.decisions.get(at + "#len") is None:
+            self.ignored.append(at)
         mi = merged_items(self.ck, self.l, at, SPECS[rn])
         if mi is None:
             self.open = True
@@ -254,11 +266,13 @@ def src_fields(l, base, ex):
     parts = []
     for i in range(n):
         fb = "%s[%d]" % (lst, i)
-        parts.append("%s%s: u%d" % (src_attrs(l, fb + ".attrs"), "f%d" % i, 8 << i) if d == 0 else "%su%d" % (src_attrs(l, fb + ".attrs"), 8 << i))
+        parts.append("%s%s: u%d" % (src_attrs(l, fb + ".attrs", ex), "f%d" % i, 8 << i) if d == 0 else "%su%d" % (src_attrs(l, fb + ".attrs", ex), 8 << i))
     return " { %s }" % ", ".join(parts) if d == 0 else "(%s)" % ", ".join(parts)
 
 
-def src_attrs(l, at):
+def src_attrs(l, at, ex=None):
+    if ex is not None and at in ex.ignored:
+        return "#[my(=)] "     # completion of a never-inspected vector: an attribute that must produce one more error
     m = l.decisions.get(at + "#len", 0)
     out = []
     for j in range(m):
@@ -296,9 +310,9 @@ def src_attrs(l, at):
     return "".join(out)
 
 
-def d4_job(ck, prog, natbin, NF, M, quick):
+def d4_job(ck, prog, natbin, NF, M, quick, only=None, NV=None, MV=None):
     native = Native(natbin)
-    I = Interp(prog, models.all_models(OPTS), Pol(NF, M), timeout_ms=ck.timeout_ms)
+    I = Interp(prog, models.all_models(OPTS), Pol(NF, M, only, NV, MV), timeout_ms=ck.timeout_ms)
     e = prog.entry("entry_D4")
     leaves = I.explore(e, [Lazy("x", e.local_tys[1])])
     ck.absorb(I, leaves, "entry_D4")
@@ -364,12 +378,25 @@ def d4_job(ck, prog, natbin, NF, M, quick):
             for i in range(n):
                 vb = "x*.data.Enum.0.variants[%d]" % i
                 dsc = " = %d" % (i + 3) if l.decisions.get(vb + ".discriminant#d") == 1 else ""
-                vs.append("%sV%d%s%s" % (src_attrs(l, vb + ".attrs"), i, src_fields(l, vb + ".fields", ex), dsc))
+                vs.append("%sV%d%s%s" % (src_attrs(l, vb + ".attrs", ex), i, src_fields(l, vb + ".fields", ex), dsc))
             src = "pub enum Foo<T> { %s }" % ", ".join(vs)
         else:
             src = "union Foo { a: u8 }"
         req = "(di D4 %s)" % sx_str(src)
         cnt += 1
+        if ex.ignored:
+            # the model converts every field / variant, this path never looked at some of them: complete the input with a failing
+            # attribute on each ignored element and replay - every one of them must add an error
+            ck.obligations += 1
+            want = (len(val) if kind == "err" else 0) + len(ex.ignored)
+            nat = native.ask(req)
+            r = nat.get("result", {}) if isinstance(nat, dict) else {}
+            if isinstance(r, dict) and "err" in r and len(r["err"]) == want:
+                ck.engine("D4: elements %r were not inspected symbolically, but the native run reports them (%s)" % (ex.ignored, req))
+            else:
+                ck.report("D4:element-never-converted", "a field / variant is never converted on a path where an earlier one failed: its errors are lost",
+                          {"property": "C16", "crate": "hderive", "request": req, "expected_errors": want, "ignored": ex.ignored, "observed": nat})
+            continue
         if good:
             ck.ok()
         else:
@@ -449,7 +476,7 @@ def prepare(ck):
     ck.crate = "hderive"
     quick = ck.tier == "quick"
     NF = 2 if quick else 3
-    ck.bounds = {"fields_or_variants": "0..%d without attributes, 0..1 with 0..1 attribute each" % NF, "attributes_per_field": "0..1", "receivers": ["D4 (ident, vis, generics, data: Data<V1, F1>)", "F1", "V1", "T1"]}
+    ck.bounds = {"fields_or_variants": "0..%d without attributes; with 0..1 attribute each: 0..1 of both, 0..2 fields of a struct, 0..2 fields of one variant, 0..2 attributed variants of 0..1 plain field" % NF, "attributes_per_field": "0..1", "receivers": ["D4 (ident, vis, generics, data: Data<V1, F1>)", "F1", "V1", "T1"]}
     ck.outside = ["re-printing a converted field list (`Fields::to_tokens`: quote! output, token model - stage B)", "more fields / variants than the bound",
                   "magic members wrapped in SpannedValue / WithOriginal / Result (their element-level impls delegate like the FromMeta ones: C12)"]
     ck.assumptions = ["syn invariants: named fields carry an identifier, tuple fields do not", "Clone of syn data is a structural copy"]
@@ -457,6 +484,9 @@ def prepare(ck):
     natbin = build.build_native("hderive")
     ck.programs.add("hderive::D4")
     jobs = [lambda sub: d4_job(sub, prog, natbin, 1, 1, quick), lambda sub: d4_job(sub, prog, natbin, NF, 0, quick),
+            lambda sub: d4_job(sub, prog, natbin, 2, 1, quick, only=("Struct",)),
+            lambda sub: d4_job(sub, prog, natbin, 2, 1, quick, only=("Enum",), NV=1),
+            lambda sub: d4_job(sub, prog, natbin, 1, 0, quick, only=("Enum",), NV=2, MV=1),
             lambda sub: small_job(sub, prog, natbin, "T1", quick)]
     return jobs
 
